@@ -1,6 +1,7 @@
 (* Model/Chunked.v -- executable model of copy_chunked_async (src/util.rs:79-111) with its helpers
    hex_digit and trim_prefix.  Definitions only; proofs are in Proofs/ChunkedP.v. *)
 From SV Require Import Base.Bytes Model.IOSched Spec.ChunkDecode.
+From SV Require Generated.SourceParams.
 
 (* fn hex_digit(n: u8) -> u8   (n in 0..=15; other values hit unimplemented!(), unreachable here
    because the argument is always masked with 0xF) *)
@@ -29,8 +30,9 @@ Definition size_line (n : N) : bytes := trim_prefix0 (hex4 n).
 (* the error-free output for a sequence of reads *)
 Definition encode (pieces : list bytes) : bytes := concat (map chunk_of pieces) ++ terminator.
 
-(* the largest read: reader.read(&mut buf[6..65534]) *)
-Definition piece_max_N : N := 65528.
+(* the largest read: reader.read(&mut buf[lo..hi]) -- the window is re-read from src/util.rs on every
+   run (Generated/SourceParams.v, props/srcparams.py); at the pinned commit it is buf[6..65534] = 65528 *)
+Definition piece_max_N : N := SourceParams.src_chunk_read_hi - SourceParams.src_chunk_read_lo.
 Definition piece_max : nat := N.to_nat piece_max_N.
 
 Inductive cres := COk (n : N) | CReaderErr | CWriterErr | COutOfFuel.
